@@ -77,13 +77,12 @@ class Runner:
             # system state); the streams exercise the library's own semantics, so the hooks are detached
             self.pm.pre_commit_handler = None
             self.pm.post_commit_handler = None
+        if 'inst' in case:
+            # InstanceId of the provider: absent (None, the library default), 0, or a number (the test device sets 1)
+            self.pm.instance_id = case['inst']
         self.cons = None
         self.cm = None
         self.rec = None
-        if case.get('consumer', True):
-            self.cons = self.w.add_consumer()
-            self.cm = self.w.consumer_mdib(self.cons)
-            self.rec = NotificationRecorder(self.cm, self.canon)
         self.handed_out = []      # objects handed out by getters (for the isolation stream)
         self.slots = {}           # entities read by a 'read' operation; written (possibly stale) by later operations
         self.stored = []          # fault streams: raw notification requests in emission order
@@ -91,6 +90,20 @@ class Runner:
         self.pending_seen = _IdSet()
         self.delivered_ids = set()
         self.last_ex = None
+        self.inflight_delivered = []
+        self.init_log = None
+        self.init_error = None
+        if case.get('consumer', True):
+            from sdc11073.mdib.consumermdib import ConsumerMdib
+            self.cons = self.w.add_consumer()
+            self.cm = ConsumerMdib(self.cons)
+            try:
+                # FIRST load: the provider commits case['init_during'] after it has built its GetMdibResponse and
+                # before the consumer receives it; the reports reach the (subscribed, still initialising) consumer
+                self.init_log = self.in_flight(case.get('init_during') or [], self.cm.init_mdib)
+            except Exception as ex:  # noqa: BLE001
+                self.init_error = exc_code(ex) + ':' + traceback.format_exc()[-500:]
+            self.rec = NotificationRecorder(self.cm, self.canon)
         if case.get('delivery') is not None and self.cons is not None:
             cons_netloc = self.cons._verif_server.netloc
 
@@ -100,6 +113,62 @@ class Runner:
                     return ('status', 202)      # the provider believes the notification was delivered
                 return None
             self.w.net.hook = hook
+
+    # ------------------------------------------------------------------ GetMdib in flight
+    def in_flight(self, ops, call):
+        """run call() (init_mdib / reload_all); the provider executes `ops` after it has built the response to the
+        consumer's first request to the Get service and before the consumer receives that response.  Returns a log:
+        version of the snapshot, then per operation result, provider delta and the kinds / versions of its reports."""
+        srv = self.w.provider_server
+        orig = srv.handle_raw
+        log = []
+        armed = [bool(ops)]
+
+        def handle_raw(raw, peer):
+            resp = orig(raw, peer)
+            line = raw.split(b'\r\n', 1)[0].split()
+            if armed[0] and len(line) > 1 and line[0] == b'POST' and line[1].endswith(b'/Get'):
+                armed[0] = False
+                log.append({'snapshot_ver': self.pm.mdib_version})
+                for op in ops:
+                    log.append(self.sub_op(op))
+            return resp
+        srv.handle_raw = handle_raw
+        try:
+            call()
+        finally:
+            del srv.handle_raw
+        return log
+
+    def sub_op(self, op):
+        """one provider operation inside the in-flight window; in the fault streams its notifications are handed to
+        the consumer at once, in order (op['dup']: each of them twice)"""
+        self.clock.advance(op.get('dt', 0.125))
+        n0, s0 = len(self.w.net.log), len(self.stored)
+        prev = mdibrun.snapshot(self.pm, self.canon)
+        res = self.exec_op(op)
+        cur = mdibrun.snapshot(self.pm, self.canon)
+        fresh = self.stored[s0:]
+        self.pending_seen |= set(id(e) for e in fresh)
+        for e in fresh:
+            for _ in range(2 if op.get('dup') else 1):
+                self.inflight_delivered.append(self.deliver(e))
+        reports = [self.parse(ex) for ex in self.w.net.log[n0:]
+                   if self.cons is not None and ex.netloc == self.cons._verif_server.netloc and ex.method == 'POST']
+        return {'op': op, 'res': res, 'prov': delta(prev, cur),
+                'reports': [[r.get('kind'), r.get('ver')] for r in reports if not r.get('other')]}
+
+    def exec_op(self, op):
+        res = 'ok'
+        try:
+            {'state': self.do_state, 'ctx': self.do_ctx, 'location': self.do_location,
+             'descr': self.do_descr, 'setctx': self.do_setctx, 'reseq': self.do_reseq, 'reload': self.do_reload,
+             'read': self.do_read, 'nop': lambda op: None}[op['k']](op)
+        except Exception as ex:  # noqa: BLE001
+            res = exc_code(ex)
+            if res.startswith('Other'):
+                res += ':' + traceback.format_exc()[-600:]
+        return res
 
     # ------------------------------------------------------------------ ops
     def do_read(self, op):
@@ -225,6 +294,8 @@ class Runner:
         if self.cm is not None:
             after = self.fingerprint()
             r['changed'] = [k for k, (a, b) in enumerate(zip(before, after)) if a != b]   # indices of the parts that differ
+            r['cver'] = before[0]                              # the consumer's MdibVersion before this delivery
+            r['cmode'] = self.cm._state.name
             r['again'] = id(ex) in self.delivered_ids          # this very notification was delivered before (since the last reload)
             self.delivered_ids.add(id(ex))
         return r
@@ -264,8 +335,10 @@ class Runner:
     def do_reload(self, op):
         self.delivered_ids = set()
         # notifications that arrive while GetMdib is in flight are delivered from inside the transport hook
+        # (these were committed BEFORE the snapshot; op['during'] = operations committed after it, see in_flight)
         inflight = [1] if op.get('inflight') else []
         self.inflight_delivered = []
+        self.reload_log = None
         self.pending += [ex for ex in self.stored if ex not in self.pending_seen]
         self.pending_seen |= set(id(e) for e in self.pending)
         old_hook = self.w.net.hook
@@ -330,7 +403,7 @@ class Runner:
             spy = SpyLock()
             self.cm._buffered_notifications_lock = spy
         try:
-            self.cm.reload_all()
+            self.reload_log = self.in_flight(op.get('during') or [], self.cm.reload_all)
         finally:
             self.w.net.hook = old_hook
             if spy is not None:
@@ -447,19 +520,21 @@ class Runner:
         prev_p = mdibrun.snapshot(self.pm, self.canon)
         prev_c = mdibrun.snapshot(self.cm, self.canon) if self.cm else None
         init = {'prov': prev_p, 'mirror0': mirror_diff(prev_p, prev_c) if prev_c else None}
-        for op in self.case['ops']:
+        if self.cm is not None:
+            init['cons_vg'] = [prev_c['ver'], prev_c['seq'], prev_c['inst']]
+            init['cmode'] = self.cm._state.name
+            init['cons_problems'] = prev_c['index_problems'] + table_problems(prev_c)
+            if self.init_log:
+                init['during'] = self.init_log
+            if self.init_error:
+                init['error'] = self.init_error
+        for op in ([] if self.init_error else self.case['ops']):
             self.clock.advance(op.get('dt', 0.125))
             n0 = len(self.w.net.log)
-            res = 'ok'
             self.resolved = None
-            try:
-                {'state': self.do_state, 'ctx': self.do_ctx, 'location': self.do_location,
-                 'descr': self.do_descr, 'setctx': self.do_setctx, 'reseq': self.do_reseq, 'reload': self.do_reload,
-                 'read': self.do_read, 'nop': lambda op: None}[op['k']](op)
-            except Exception as ex:  # noqa: BLE001
-                res = exc_code(ex)
-                if res.startswith('Other'):
-                    res += ':' + traceback.format_exc()[-600:]
+            self.inflight_delivered = []
+            self.reload_log = None
+            res = self.exec_op(op)
             cur_p = mdibrun.snapshot(self.pm, self.canon)
             reports = []
             for ex in self.w.net.log[n0:]:
@@ -475,6 +550,9 @@ class Runner:
                     todo = []
                     if tok == 'all':
                         todo, self.pending = self.pending, []
+                    elif tok == 'cur':      # only what this transaction sent; older pending notifications stay withheld
+                        now = [e for e in self.pending if e in self.w.net.log[n0:]]
+                        todo, self.pending = now, [e for e in self.pending if e not in now]
                     elif tok == 'rev':
                         todo, self.pending = self.pending[::-1], []
                     elif tok == 'dup':
@@ -495,9 +573,14 @@ class Runner:
             step = {'res': res, 'prov': delta(prev_p, cur_p), 'reports': reports, 'delivered': delivered}
             if self.resolved is not None:
                 step['resolved'] = self.resolved
+            if op['k'] == 'reload':
+                step['inflight'] = self.inflight_delivered
+                if self.reload_log:
+                    step['during'] = self.reload_log
             if self.cm is not None:
                 cur_c = mdibrun.snapshot(self.cm, self.canon)
                 step['cons'] = delta(prev_c, cur_c)
+                step['cons']['table_problems'] = table_problems(cur_c)
                 step['notif'] = self.rec.take()
                 step['mirror'] = mirror_diff(cur_p, cur_c)
                 step['cmode'] = self.cm._state.name
@@ -521,6 +604,21 @@ def delta(a, b):
     out['saved_del'] = {k: sorted({str(e[0]) for e in a['saved'][k]} - {str(e[0]) for e in b['saved'][k]}) for k in ('d', 's', 'c')}
     if (b['seq'], b['inst']) != (a['seq'], a['inst']):
         out['seqinst'] = [b['seq'], b['inst']]
+    return out
+
+
+def table_problems(snap):
+    """objects in the wrong table / without descriptor (consumer side)"""
+    out = []
+    descrs = {str(x[0]) for x in snap['descrs']}
+    for x in snap['states']:
+        if x[1].endswith('ContextState') and x[1] != 'SystemContextState':
+            out.append(f'the single-state table holds {x[1]} {x[0]}')
+        if str(x[0]) not in descrs:
+            out.append(f'state {x[0]} has no descriptor')
+    for x in snap['cstates']:
+        if str(x[1]) not in descrs:
+            out.append(f'context state {x[0]} has no descriptor {x[1]}')
     return out
 
 
